@@ -1048,9 +1048,16 @@ def _format_value(value):
     A string representation of `value` when `value` is literally representable,
     or `None`.
   """
-  literal = repr(value)
   try:
-    if parse_value(literal) == value:
+    literal = repr(value)
+    # Parse the literal as the value of a whole statement (rather than through
+    # `parse_value`, which ignores whatever follows the first value), so that a
+    # `repr` with trailing text is not mistaken for a literal.
+    statements = list(
+        config_parser.ConfigParser('value = ' + literal, ParserDelegate()))
+    if (len(statements) == 1 and
+        isinstance(statements[0], config_parser.BindingStatement) and
+        statements[0].value == value):
       return literal
   except Exception:  # pylint: disable=broad-except
     # Not only SyntaxError: e.g. tokenizer errors for unbalanced brackets, or
